@@ -72,6 +72,7 @@ type crashPlan struct {
 	AtStep int64  `json:"at_step"` // scheduling steps after the sessions were established (negative: absolute step, during the handshake)
 	Twice  bool   `json:"twice,omitempty"`
 	Opener bool   `json:"opener,omitempty"` // a client thread keeps opening (and closing) streams while the fault strikes
+	Flood  int    `json:"flood,omitempty"`  // the server application has stopped accepting; the client opens this many streams (accept backlog: 1024) and the fault strikes once they were all sent
 }
 
 type sessScenario struct{}
@@ -235,6 +236,19 @@ func (sessScenario) Gen(r *Rng, tier string, opts map[string]string) interface{}
 	p.Faulty = r.Chance(1, 2)
 	if !p.Faulty {
 		p.Cfg.Spurious = 0
+	}
+	if prop == "C14" && (r.Chance(1, 40) || opts["flood"] != "") {
+		// accept backlog overflow: Session.Close from a foreign goroutine while the event loop is parked on the full
+		// accept channel (it must be released by the shutdown, run the teardown and release everything)
+		p.Accept = true
+		p.Faulty = true
+		p.Cfg.QueueCap = 8192
+		p.Cfg.Spurious = 0
+		p.Sim.PointMean = 0
+		p.Sim.MaxSteps = 3000000
+		p.Streams = []streamPlan{{}}
+		p.Crash = &crashPlan{Kind: []string{"close_server", "close_both"}[r.Intn(2)], AtStep: int64(r.Intn(300)), Twice: r.Chance(1, 3), Flood: 1024 + r.Pick(1, 2, 40)}
+		return p
 	}
 	if prop == "C11" && r.Chance(1, 5) {
 		// a deadline that expires at the very instant the awaited data arrives (both timers are due at the same
@@ -701,6 +715,8 @@ type sessStream struct {
 }
 
 type sessWorld struct {
+	floodDone bool
+	floodStep int64
 	plan       *sessPlan
 	sim        *simrt.Sim
 	own        string
@@ -839,7 +855,12 @@ func (w *sessWorld) stepHook(step int64) {
 		return
 	}
 	target := c.AtStep
-	if target >= 0 {
+	if c.Flood > 0 {
+		if !w.floodDone {
+			return
+		}
+		target += w.floodStep
+	} else if target >= 0 {
 		if !w.established {
 			return
 		}
@@ -982,7 +1003,9 @@ func (w *sessWorld) main(dir string) {
 		w.sockC.Tap = func(dir int, b []byte) { w.tap[0] = append(w.tap[0], b...) }
 		w.sockC.Peer().Tap = func(dir int, b []byte) { w.tap[1] = append(w.tap[1], b...) }
 	}
-	if p.Accept {
+	if p.Crash != nil && p.Crash.Flood > 0 {
+		w.spawn(w.pc, "flooder", func() { w.flooder(p.Crash.Flood) })
+	} else if p.Accept {
 		w.acceptorG = simrt.GoProc(w.ps, "acceptor", func() {
 			simrt.MarkDaemon()
 			for {
@@ -1206,6 +1229,24 @@ func (w *sessWorld) spawn(p *simrt.Proc, name string, f func()) {
 		}
 		f()
 	})
+}
+
+// flooder opens n streams and sends one byte on each while nobody accepts on the server; after the last one the
+// event loop of the server is parked on its full accept channel, and the planned Session.Close strikes.
+func (w *sessWorld) flooder(n int) {
+	for i := 0; i < n && !simrt.Failed(); i++ {
+		st, err := w.cli.OpenStream()
+		if err != nil || st == nil {
+			break
+		}
+		_ = st.BufferWriter().WriteByte(byte(i))
+		_ = st.Flush(false)
+		w.ops++
+	}
+	simrt.Sleep(50 * time.Millisecond)
+	w.probe("flood_done")
+	w.floodStep = simrt.Steps()
+	w.floodDone = true
 }
 
 // opener (C14: "all later calls fail", "Close is safe to call concurrently with traffic"): OpenStream keeps being
